@@ -158,8 +158,11 @@ DRIVER_BIN = os.path.join(LEAN, ".lake", "build", "bin", "h5vdriver")
 def _run_shard(binary, lines, timeout):
     data = "".join(l + "\n" for l in lines)
     try:
+        env = dict(os.environ)
+        # per-case watchdog of the harness: quick cases take < 3 s each, thorough ones up to ~30 s
+        env.setdefault("H5V_CASE_TIMEOUT", "25" if os.environ.get("VERIF_TIER_RUNNING", "quick") == "quick" else "150")
         p = subprocess.run([binary], input=data.encode("utf-8"), stdout=subprocess.PIPE,
-                           stderr=subprocess.PIPE, timeout=timeout)
+                           stderr=subprocess.PIPE, timeout=timeout, env=env)
     except subprocess.TimeoutExpired:
         return None, "timeout"
     out = p.stdout.decode("utf-8", "replace").split("\n")
@@ -243,6 +246,7 @@ class Check:
         self.mod = mod
         self.prop = mod.PROP
         self.tier = tier
+        os.environ["VERIF_TIER_RUNNING"] = tier
         self.seed = seed
         self.t0 = time.time()
         self.failures = []
